@@ -63,6 +63,12 @@ CHECKS = {
     design="5/C01",
     note="Trusted: Lean kernel; the reading of the fibertree API (Nest.run is the meaning of `for c, (z, (a, b)) in z << (a & b)` etc.), cross-checked against the minifiber stand-in; model compiler = real compiler is sampled (skeleton + results on 2-3 inputs per specification), not proved; header/footer statements (swizzles, output creation) are validated by execution only. Known findings: take() with >=2 operands inside a sum; rank-0 operand of take().",
     technique="Lean 4 proof by induction over the loop nest (co-iteration = dense sum) + model-compiler correspondence by skeleton comparison and differential execution"),
+ "C02": dict(
+    category="proof",
+    text="PARTIAL. Lean theorems (Props/C02), for every tensor, step, depth and extent: split_merge_id (mergeRanks(depth, 1, absolute) undoes splitUniform(step, depth) point for point - the footer restores the original coordinates), key_bounds/key_unique (every coordinate lies in exactly one partition [k, k+step), also when the step does not divide or exceeds the extent), partition_sum (the two loops of a partitioned rank with the membership test sum to the loop over the original rank - nothing lost, nothing met twice), nway_cover (the step (N-1)//n+1 gives at most n partitions covering the extent). NOT proved: the composition of these with the C01 loop-nest theorem for nests over the expanded ranks in arbitrary level order. That part is decided per generated specification by executing the real partitioned program (G2: any subset of ranks, 1-3 levels, uniform/nway, literal/symbolic sizes, any permutation of levels) against the unpartitioned compile and the dense oracle on sampled inputs; the Lean operations are compared with the executing stand-in on random tensors.",
+    design="5/C02",
+    note="Trusted: Lean kernel; the fibertree contract of splitUniform/mergeRanks (FT/Ops.lean = minifiber, compared on random tensors); per-program correctness rests on execution over sampled inputs and specifications, not on a theorem.",
+    technique="Lean 4 proofs of the partition algebra (partial) + differential execution of the real emitted programs against the unpartitioned program and a dense oracle"),
 }
 
 NOT_YET = {}
